@@ -326,6 +326,54 @@ fn part_parse_short(rep: &mut Report, thorough: bool) {
     rep.add(sec);
 }
 
+/// PEM texts whose block carries RFC 1421 style header lines (what encrypted legacy keys have) before the body.
+fn part_pem_headers(rep: &mut Report, thorough: bool) {
+    let w = Watch { slow: AtomicU64::new(0) };
+    let lines = ["Proc-Type: 4,ENCRYPTED", "Proc-Type: 4,MIC-ONLY", "Proc-Type:", "Proc-Type: ENCRYPTED", "DEK-Info: AES-256-CBC,00112233445566778899AABBCCDDEEFF", "DEK-Info: AES-256-CBC", "DEK-Info:", "DEK-Info: ,", "DEK-Info: ,,", "X-Other: 1", ":", "NoColonHere", " folded continuation", "Proc-Type: 4,ENCRYPTED\r"];
+    let maxlen = if thorough { 4 } else { 3 };
+    let mut seqs: Vec<Vec<usize>> = vec![vec![]];
+    let mut frontier: Vec<Vec<usize>> = vec![vec![]];
+    for _ in 0..maxlen {
+        let mut next = Vec::new();
+        for s in &frontier {
+            for l in 0..lines.len() {
+                let mut n = s.clone();
+                n.push(l);
+                next.push(n);
+            }
+        }
+        seqs.extend(next.iter().cloned());
+        frontier = next;
+    }
+    // bodies: a PKCS#8 Ed25519 key, a PKCS#1-looking stub and a certificate-looking stub (the loaders decide by label and content)
+    let key = [0x30u8, 0x2e, 0x02, 0x01, 0x00, 0x30, 0x05, 0x06, 0x03, 0x2b, 0x65, 0x70, 0x04, 0x22, 0x04, 0x20].iter().copied().chain((0..32u8).map(|i| i.wrapping_mul(7) ^ 0x5a)).collect::<Vec<u8>>();
+    let bodies: Vec<(&str, Vec<u8>)> = vec![("PRIVATE KEY", key.clone()), ("RSA PRIVATE KEY", vec![0x30, 0x03, 0x02, 0x01, 0x00]), ("EC PRIVATE KEY", vec![0x30, 0x03, 0x02, 0x01, 0x01]), ("CERTIFICATE", vec![0x30, 0x03, 0x02, 0x01, 0x02]), ("PUBLIC KEY", vec![0x30, 0x00])];
+    let cases: Vec<(usize, usize, bool)> = (0..seqs.len()).flat_map(|s| (0..bodies.len()).flat_map(move |b| [(s, b, true), (s, b, false)])).collect();
+    let sec = Section::new("parse/pem-headers", &format!("every sequence of <= {} header lines over {} lines (Proc-Type / DEK-Info in complete, cut-off, empty and comma-less forms, other headers, a line without colon, a folded line, a CR) inside blocks of 5 labels, with and without the blank line before the body, through every PEM entry point", maxlen, lines.len())).with_deadline(if thorough { 600 } else { 30 });
+    run::sweep_cases(&sec, &cases, &|c| format!("{} headers {:?} blank_line={}", bodies[c.1].0, seqs[c.0].iter().map(|l| lines[*l]).collect::<Vec<_>>(), c.2), &|c| {
+        let mut out = Outcome::default();
+        let plain = refmodel::pem::encode(bodies[c.1].0, &bodies[c.1].1);
+        let (first, rest) = plain.split_once('\n').unwrap();
+        let mut text = String::from(first);
+        text.push('\n');
+        for l in &seqs[c.0] {
+            text.push_str(lines[*l]);
+            text.push('\n');
+        }
+        if c.2 {
+            text.push('\n');
+        }
+        text.push_str(rest);
+        out.transitions = feed_text(&text, &mut out.findings, &w);
+        out.digest = fnv(text.as_bytes()) % 7;
+        out
+    });
+    if w.slow.load(Ordering::Relaxed) > 0 {
+        rep.machinery_error("an evaluation took longer than 5 s (possible non-termination); see sections");
+    }
+    rep.add(sec);
+}
+
 #[cfg(feature = "crypto")]
 fn part_parse_edits(rep: &mut Report, thorough: bool, half: usize) {
     let zoo = load_zoo();
@@ -864,6 +912,43 @@ fn part_generation(rep: &mut Report, thorough: bool) {
         out
     });
     rep.add(sec);
+    // ... the request space (with caller-supplied attributes, an extensionRequest among them) and the CRL space likewise
+    {
+        let csr_space = super::c07::csr_space(false);
+        let raw = fake_pub(Alg::EcP256, 3);
+        let (key, _l) = stub_key(Alg::EcP256, &raw);
+        let kpub = KeyPub { alg: Alg::EcP256, raw };
+        let sec = Section::new("generation/ordinary-levels/csr", "the ordinary request parameter space (names, alternative names, usages, custom extensions, caller attribute lists of <= 2 incl. a caller-supplied extensionRequest, inert fields) at levels k <= 2 (thorough 3) with 'no panic' as the oracle").with_deadline(if thorough { 900 } else { 30 });
+        run::levels(&sec, &csr_space, if thorough { 3 } else { 2 }, &|c, _| {
+            let mut out = Outcome::default();
+            let ev = crate::artefacts::eval_csr(&c.st, &c.attrs, &key, &kpub);
+            out.transitions = ev.transitions;
+            if let Some(p) = ev.panic {
+                out.findings.push(panic_finding("serialize_request(_with_attributes)", p));
+            }
+            if let Some(t) = ev.tbs {
+                out.digest = fnv(&t);
+            }
+            out
+        });
+        rep.add(sec);
+        let iss = super::c08::issuers();
+        let crl_space = super::c08::crl_space(&iss, false);
+        let sec = Section::new("generation/ordinary-levels/crl", "the ordinary CRL parameter space (update times, CRL number, issuing distribution point, revoked lists, key-identifier method, issuers) at levels k <= 2 (thorough 3) with 'no panic' as the oracle").with_deadline(if thorough { 900 } else { 30 });
+        run::levels(&sec, &crl_space, if thorough { 3 } else { 2 }, &|c, _| {
+            let mut out = Outcome::default();
+            let ev = crate::artefacts::eval_crl(&c.st, &iss.list[c.issuer]);
+            out.transitions = ev.transitions;
+            if let Some(p) = ev.panic {
+                out.findings.push(panic_finding("CertificateRevocationListParams::signed_by", p));
+            }
+            if let Some(t) = ev.tbs {
+                out.digest = fnv(&t);
+            }
+            out
+        });
+        rep.add(sec);
+    }
     // documented panics must still be the only intentional ones: they do panic
     let sec = Section::new("generation/documented-panics", "the three documented panics (wrong ACME digest length, serialising a remote key, impossible calendar date) are asserted to panic; they are excluded from the sweeps by not generating their inputs");
     let docs: Vec<(&str, Box<dyn Fn() + Sync>)> = vec![
@@ -905,7 +990,10 @@ pub fn run(prop: &str, tier: &str, replay: Option<&str>) -> i32 {
         std::process::abort();
     }
     match part.as_deref() {
-        Some("short") => part_parse_short(&mut rep, thorough),
+        Some("short") => {
+            part_parse_short(&mut rep, thorough);
+            part_pem_headers(&mut rep, thorough);
+        }
         Some("edits0") => part_parse_edits(&mut rep, thorough, 0),
         Some("edits1") => part_parse_edits(&mut rep, thorough, 1),
         Some("generation") => part_generation(&mut rep, thorough),
@@ -917,6 +1005,7 @@ pub fn run(prop: &str, tier: &str, replay: Option<&str>) -> i32 {
             if run::replay().is_some() {
                 // replay in-process: all parts (only the matching section evaluates)
                 part_parse_short(&mut rep, thorough);
+                part_pem_headers(&mut rep, thorough);
                 part_parse_edits(&mut rep, thorough, 0);
                 part_parse_edits(&mut rep, thorough, 1);
                 part_generation(&mut rep, thorough);
